@@ -286,8 +286,8 @@ def replay(chk, scenarios, label, trace_sample=100, extra_env=None, fault_of=Non
         if res["outcome"] in ("ok", "error", "reject"):
             sys_tr[sid] = runtrace.system_trace(events, res, case["args"], False)
         d = runtrace.detect_trace(events)
-        if d:
-            det_tr[sid] = d            # every recorded detector loop, not a sample
+        if d and len(det_tr) < max(300, trace_sample * 10):
+            det_tr[sid] = d            # recorded detector loops, many per TLC process (all of them in the thorough tier)
     for module, trs in (("TraceRun", run_tr), ("TraceDetect", det_tr), ("TraceSystem", sys_tr)):
         vres = runtrace.validate_system(trs) if module == "TraceSystem" else (
             runtrace.validate_detect(trs) if module == "TraceDetect" else runtrace.validate_many(module, trs))
